@@ -145,6 +145,36 @@ func checkMixed(c mixedCase) error {
 	return nil
 }
 
+func TestC12Together(t *testing.T) {
+	r := hx.Start(t, "C12")
+	defer r.Finish(t)
+	r.Rule("literals_concurrently: 3..8 mixed-literal cases (tables of 10..60 literals) judged at the same time, each on a goroutine of its own sharing nothing with the others, three rounds; every case must hold as it does alone")
+	names := []string{"values", "call", "list", "case", "index", "custom"}
+	hx.Rapid(r, t, hx.Check[hx.Batch[mixedCase]]{Name: "literals_concurrently", Fn: hx.Together(checkMixed)}, r.N(30, 300), func(rt *rapid.T) hx.Batch[mixedCase] {
+		b := hx.Batch[mixedCase]{Rounds: 3}
+		for i := rapid.IntRange(3, 8).Draw(rt, "files"); i > 0; i-- {
+			c := mixedCase{Holder: rapid.SampledFrom(names).Draw(rt, "holder")}
+			for k := rapid.IntRange(10, 60).Draw(rt, "n"); k > 0; k-- {
+				it := Case{Kind: "string", S: recipe.Text(genString(rt))}
+				if len(it.S) > 60 {
+					it.S = it.S[:60]
+				}
+				switch rapid.IntRange(0, 5).Draw(rt, "kind") {
+				case 0:
+					it = Case{Kind: "rune", R: rapid.Rune().Draw(rt, "r")}
+				case 1:
+					it = Case{Kind: "byte", B: rapid.Byte().Draw(rt, "b")}
+				}
+				c.Items = append(c.Items, it)
+			}
+			b.Cases = append(b.Cases, c)
+		}
+		r.NonTrivial(recipe.JSON(b))
+		r.Class("mixed:tables_rendered_concurrently")
+		return b
+	})
+}
+
 func cloneAll(ns []*recipe.Node) []*recipe.Node {
 	var out []*recipe.Node
 	for _, n := range ns {
